@@ -60,7 +60,7 @@ inductive IV where
   | absentVar                 -- a variable without runtime value (inside a literal)
   | null
   | bool (b : Bool)
-  | int (n : Int)
+  | int (n : Int) (t : String)   -- an integer and the decimal text it was written as
   | float (t : String)
   | floatLit (t : String)     -- a float literal of the document (same meaning as `float`; gqlparser parses it)
   | str (s : String)
@@ -94,8 +94,8 @@ def ivOfRaw : Nat → Raw → IV
     match r with
     | .nil => .null
     | .bool b => .bool b
-    | .int n | .i64 n => .int n
-    | .num t | .f64 t => (match jsonIntToken t with | some n => .int n | none => .float t)
+    | .int n | .i64 n => .int n (toString n)
+    | .num t | .f64 t => (match jsonIntToken t with | some n => .int n t | none => .float t)
     | .str s => .str s
     | .list xs | .typed _ xs => .list (xs.map (ivOfRaw f))
     | .obj fs => .obj (fs.map fun kv => (kv.1, ivOfRaw f kv.2))
@@ -106,7 +106,7 @@ def ivOfLit (vars : List (String × IV)) : Nat → Lit → IV
   | f + 1, l =>
     match l with
     | .var n => (lookup vars n).getD .absentVar
-    | .int n => .int n
+    | .int n => .int n (toString n)
     | .float t => .floatLit t
     | .str s => .str s
     | .bool b => .bool b
@@ -146,28 +146,28 @@ def coerceScalar (dv : Devs) (tn : String) (k : ScalarK) (iv : IV) : Option CV :
   | .any => some .any
   | .float =>
     (match iv with
-     | .int n => some (.float (toString n))
+     | .int _ t => some (.float t)
      | .float t | .floatLit t => some (.float t)
      | .str s => if dv.lenientScalars && builtin && floatSyntax s then some (.float s) else none
      | _ => none)
   | .string =>
     (match iv with
      | .str s => some (.str s)
-     | .int n => if dv.lenientScalars && builtin then some (.str (toString n)) else none
+     | .int _ t => if dv.lenientScalars && builtin then some (.str t) else none
      | .float t => if dv.lenientScalars && builtin then some (.str t) else none
      | _ => none)
   | .bool => (match iv with | .bool b => some (.bool b) | _ => none)
   | .id =>
     (match iv with
      | .str s => some (.str s)
-     | .int n => some (.str (toString n))
+     | .int _ t => some (.str t)
      | .float t => if (dv.lenientScalars && builtin) || (dv.idFloat6 && !builtin) then some (.str t) else none
      | .floatLit t => if dv.idFloat6 && !builtin then some (.fmt6 t) else none
      | .bool b => if dv.idFloat6 && !builtin then some (.str (if b then "true" else "false")) else none
      | _ => none)
   | k =>
     (match iv with
-     | .int n => if inRange k n then some (.int n) else none
+     | .int n _ => if inRange k n then some (.int n) else none
      | .str s =>
        if builtin && !dv.lenientScalars then none
        else (match decimalText (signedKind k) s with
@@ -190,110 +190,135 @@ def isNullIV : IV → Bool
   | .null | .absentVar => true
   | _ => false
 
-def coerce (dv : Devs) (s : Schema) : Nat → Ty → IV → Path → Except SErr CV
-  | 0, _, _, _ => .error .fuel
-  | f + 1, t, iv, path =>
-    match iv with
-    | .null | .absentVar => if t.nn then .error (.at path) else .ok .null
-    | _ =>
-      match t with
-      | .list et _ =>
-        if dv.mapList && (isMapBase s t).isSome then
-          -- F02c: the list is ignored; a list value crashes the type assertion of unmarshalInput*
-          (match iv with
-           | .list _ => .error (.panic "interface conversion")
-           | _ => coerce dv s f (Ty.named t.base true) iv path)
-        else
+/-- one field of an input object: the provided value, else the default, else omitted / an error -/
+def objField (dv : Devs) (rec : Ty → IV → Path → Except SErr CV) (fs : List (String × IV)) (path : Path)
+    (fd : FieldDef) : Except SErr (Option (String × CV)) :=
+  let p := path ++ [fd.name]
+  let provided : Option IV :=
+    match lookup fs fd.name with
+    -- variable without value: as if the field was not written
+    | some .absentVar => if dv.absentVarNull then some .null else none
+    | o => o
+  let useVal : Option IV :=
+    match provided with
+    | some v => some v
+    | none => fd.dflt.map (ivOfLit [] litDepth)
+  match useVal with
+  | none => if fd.ty.nn then .error (SErr.at p) else .ok none
+  | some v =>
+    match rec fd.ty v p with
+    | .ok c => .ok (some (fd.name, c))
+    | .error e => .error e
+
+/-- input-object coercion, given the coercion of its field values -/
+def coerceObj (dv : Devs) (rec : Ty → IV → Path → Except SErr CV) (fields : List FieldDef) (iv : IV)
+    (path : Path) : Except SErr CV :=
+  match iv with
+  | .obj fs =>
+    (match fs.find? (fun kv => (fields.find? (fun fd => fd.name = kv.1)).isNone) with
+     | some kv => .error (.at (path ++ [kv.1]))
+     | none =>
+       match mapE (objField dv rec fs path) fields with
+       | .ok kvs => .ok (.obj (kvs.filterMap id))
+       | .error e => .error e)
+  | _ => .error (.at path)
+
+/-- input coercion up to the input objects reached (`obj` = their coercion): by recursion on the type -/
+def coerceTy (dv : Devs) (s : Schema) (obj : List FieldDef → IV → Path → Except SErr CV) :
+    Ty → IV → Path → Except SErr CV
+  | t, iv, path =>
+    if isNullIV iv then (if t.nn then .error (.at path) else .ok .null) else
+    match t with
+    | .list et _ =>
+      if dv.mapList && (isMapBase s t).isSome then
+        -- F02c: the list is ignored; a list value crashes the type assertion of unmarshalInput*
+        (match iv, s.get t.base with
+         | .list _, _ => .error (.panic "interface conversion")
+         | _, some (.input _ fields) => obj fields iv path
+         | _, _ => .error (.at path))
+      else
+      (match iv with
+       | .list xs =>
+         (match mapIdxE (fun i x =>
+             if dv.nestedNullPanic && isNullIV x && isListTy et && !et.nn then
+               .error (SErr.panic "reflect: call of reflect.Value.Type on zero Value")
+             else coerceTy dv s obj et x (path ++ [toString i])) 0 xs with
+          | .ok cs => .ok (.list cs)
+          | .error e => .error e)
+       | _ =>
+         -- a single value: coerce it as the item type and wrap it
+         (match coerceTy dv s obj et iv (path ++ ["0"]) with
+          | .ok c => .ok (.list [c])
+          | .error e => .error e))
+    | .named n _ =>
+      match s.get n with
+      | none => .error (.at path)
+      | some (.scalar k) =>
+        (match coerceScalar dv n k iv with
+         | some c => .ok c
+         | none => .error (.at path))
+      | some (.enum vals) =>
         (match iv with
-         | .list xs =>
-           (match mapIdxE (fun i x =>
-               if dv.nestedNullPanic && isNullIV x && isListTy et && !et.nn then
-                 .error (SErr.panic "reflect: call of reflect.Value.Type on zero Value")
-               else coerce dv s f et x (path ++ [toString i])) 0 xs with
-            | .ok cs => .ok (.list cs)
-            | .error e => .error e)
-         | _ =>
-           -- a single value: coerce it as the item type and wrap it
-           (match coerce dv s f et iv (path ++ ["0"]) with
-            | .ok c => .ok (.list [c])
-            | .error e => .error e))
-      | .named n _ =>
-        match s.get n with
-        | none => .error (.at path)
-        | some (.scalar k) =>
-          (match coerceScalar dv n k iv with
-           | some c => .ok c
-           | none => .error (.at path))
-        | some (.enum vals) =>
-          (match iv with
-           | .enum x | .str x => if vals.contains x then .ok (.str x) else .error (.at path)
-           | _ => .error (.at path))
-        | some (.input _ fields) =>
-          (match iv with
-           | .obj fs =>
-             (match fs.find? (fun kv => (fields.find? (fun fd => fd.name = kv.1)).isNone) with
-              | some kv => .error (.at (path ++ [kv.1]))
-              | none =>
-                match mapE (fun (fd : FieldDef) =>
-                    let p := path ++ [fd.name]
-                    let provided : Option IV :=
-                      match lookup fs fd.name with
-                      -- variable without value: as if the field was not written
-                      | some .absentVar => if dv.absentVarNull then some .null else none
-                      | o => o
-                    let useVal : Option IV :=
-                      match provided with
-                      | some v => some v
-                      | none => fd.dflt.map (ivOfLit [] litDepth)
-                    match useVal with
-                    | none => if fd.ty.nn then .error (SErr.at p) else .ok none
-                    | some v =>
-                      match coerce dv s f fd.ty v p with
-                      | .ok c => .ok (some (fd.name, c))
-                      | .error e => .error e) fields with
-                | .ok kvs => .ok (.obj (kvs.filterMap id))
-                | .error e => .error e)
-           | _ => .error (.at path))
+         | .enum x | .str x => if vals.contains x then .ok (.str x) else .error (.at path)
+         | _ => .error (.at path))
+      | some (.input _ fields) => obj fields iv path
+
+/-- Input coercion of value `iv` to type `t`. Fuel is consumed only when an input object is entered. -/
+def coerce (dv : Devs) (s : Schema) : Nat → Ty → IV → Path → Except SErr CV
+  | 0 => fun _ _ _ => .error .fuel
+  | f + 1 => coerceTy dv s (coerceObj dv (coerce dv s f))
 
 /-! ## embedding coerced values into the generated Go types -/
 
+/-- a coerced input object as the generated struct / the map of a map-backed input -/
+def embedObj (s : Schema) (c : Cfg) (zeroOf : Sh → GoV) (rec : Ty → Sh → CV → GoV) (n : String) (isMap : Bool)
+    (cv : CV) : GoV :=
+  match s.get n, cv with
+  | some (.input _ fields), .obj fs =>
+    if isMap then
+      .map (fields.filterMap fun fd =>
+        (lookup fs fd.name).map fun v => (fd.name, rec fd.ty (shapeRef s c fd.ty) v))
+    else
+      .struct (fields.map fun fd =>
+        let fsh := shapeField s c fd.ty
+        let om := fieldOmittable c fd.ty
+        match lookup fs fd.name with
+        | none => (fd.goName, if om then GoV.unset else zeroOf fsh)
+        | some v => (fd.goName, if om then GoV.set (rec fd.ty fsh v) else rec fd.ty fsh v))
+  | _, _ => .nil
+
+def embedSh (obj : String → Bool → CV → GoV) : Sh → Ty → CV → GoV
+  | sh, t, cv =>
+    match cv with
+    | .null =>
+      (match sh with
+       | .slice _ => .nilSlice
+       | .mapIn _ => .nilMap
+       | _ => .nil)
+    | _ =>
+      match sh with
+      | .scalar .any => .str "<any>"
+      | .ptr inner => .ptr (embedSh obj inner t cv)
+      | .slice el =>
+        (match t, cv with
+         | .list et _, .list xs => .slice (xs.map (embedSh obj el et))
+         | _, _ => .nil)
+      | .scalar _ =>
+        (match cv with
+         | .int n => .int n
+         | .float x => .float x
+         | .str x => .str x
+         | .fmt6 x => .fmt6 x
+         | .bool b => .bool b
+         | _ => .nil)
+      | .enum _ => (match cv with | .str x => .str x | _ => .nil)
+      | .struct n => obj n false cv
+      | .mapIn n => obj n true cv
+      | .bad _ => .nil
+
 def embed (s : Schema) (c : Cfg) : Nat → Ty → Sh → CV → GoV
-  | 0, _, _, _ => .nil
-  | f + 1, t, sh, cv =>
-    match sh, cv with
-    | .ptr _, .null => .nil
-    | .slice _, .null => .nilSlice
-    | .mapIn _, .null => .nilMap
-    | _, .null => .nil
-    | .scalar .any, _ => .str "<any>"
-    | .ptr inner, cv => .ptr (embed s c f t inner cv)
-    | .slice el, .list xs =>
-      (match t with
-       | .list et _ => .slice (xs.map (embed s c f et el))
-       | _ => .nil)
-    | .scalar _, .int n => .int n
-    | .scalar _, .float x => .float x
-    | .scalar _, .str x => .str x
-    | .scalar _, .fmt6 x => .fmt6 x
-    | .scalar _, .bool b => .bool b
-    | .enum _, .str x => .str x
-    | .struct n, .obj fs =>
-      (match s.get n with
-       | some (.input _ fields) =>
-         .struct (fields.map fun fd =>
-           let fsh := shapeField s c fd.ty
-           let om := fieldOmittable c fd.ty
-           match lookup fs fd.name with
-           | none => (fd.goName, if om then GoV.unset else zero s c f fsh)
-           | some v => (fd.goName, if om then GoV.set (embed s c f fd.ty fsh v) else embed s c f fd.ty fsh v))
-       | _ => .nil)
-    | .mapIn n, .obj fs =>
-      (match s.get n with
-       | some (.input _ fields) =>
-         .map (fields.filterMap fun fd =>
-           (lookup fs fd.name).map fun v => (fd.name, embed s c f fd.ty (shapeRef s c fd.ty) v))
-       | _ => .nil)
-    | _, _ => .nil
+  | 0 => fun _ _ _ => .nil
+  | f + 1 => fun t sh cv => embedSh (embedObj s c (zero s c f) (embed s c f)) sh t cv
 
 /-! ## variables and arguments -/
 
@@ -303,7 +328,7 @@ def cvToIV : Nat → CV → IV
   | f + 1, c =>
     match c with
     | .null => .null
-    | .int n => .int n
+    | .int n => .int n (toString n)
     | .float t => .float t
     | .str s => .str s
     | .fmt6 t => .float t
